@@ -201,8 +201,10 @@ class InternalCompiler(Compiler):
         for i in erets:
             qc.cx(i, dest)
 
-        # 4. Perform the MCX between all args
-        qc.mcx(erets, dest)
+        # 4. Perform the MCX between all args (when both operands sit on the same
+        # qubit, the or is that operand: a | a = a)
+        if len(erets) > 1:
+            qc.mcx(erets, dest)
 
         # 5. Mark ancilla every argument and return
         [qc.mark_ancilla(eret) for eret in erets]
@@ -223,12 +225,12 @@ class InternalCompiler(Compiler):
             return iret
 
         # 1. Compile the expression
-        was_computed = expr.args[0] in self.expqmap
+        computed_qubits = set(self.expqmap.exp_map.values())
         eret = self.compile_expr(qc, expr.args[0])
 
-        # 2. If the expression is on an ancilla nobody else refers to, perform
-        # the X in place updating the exp
-        if eret in qc.ancilla_lst and not was_computed and dest is None:
+        # 2. If the expression is on an ancilla nobody else refers to (it held no
+        # computed expression before), perform the X in place updating the exp
+        if eret in qc.ancilla_lst and eret not in computed_qubits and dest is None:
             qc.x(eret)
             self.expqmap[expr] = eret
             return eret
